@@ -265,6 +265,36 @@ func extractStructure(e *env, f *facts) {
 		onlySubmit = onlySubmit && ok
 	}
 	f.Bool["asyncApisOnlySubmit"] = onlySubmit
+	// the Sec-WebSocket-Extensions value of the 101 response is generated from THIS handshake's negotiated parameters:
+	// doUpgradeFromConn contains, in this order, `var pd = c.getPermessageDeflate(extensions)` and
+	// `if pd.Enabled { rw.WithHeader(internal.SecWebSocketExtensions.Key, pd.genResponseHeader()) }`; likewise the client's offer
+	// is `c.option.PermessageDeflate.genRequestHeader()` under `if c.option.PermessageDeflate.Enabled`
+	{
+		var texts []string
+		ast.Inspect(p.fn("Upgrader.doUpgradeFromConn").Body, func(n ast.Node) bool {
+			if st, ok := n.(ast.Stmt); ok {
+				texts = append(texts, strings.Join(strings.Fields(src(p, st)), ""))
+			}
+			return true
+		})
+		i1, i2 := -1, -1
+		for i, t := range texts {
+			if t == "varpd=c.getPermessageDeflate(extensions)" && i1 < 0 {
+				i1 = i
+			}
+			if t == "ifpd.Enabled{rw.WithHeader(internal.SecWebSocketExtensions.Key,pd.genResponseHeader())}" && i2 < 0 {
+				i2 = i
+			}
+		}
+		okClient := false
+		ast.Inspect(p.fn("connector.request").Body, func(n ast.Node) bool {
+			if st, ok := n.(ast.Stmt); ok && strings.Join(strings.Fields(src(p, st)), "") == "ifc.option.PermessageDeflate.Enabled{r.Header.Set(internal.SecWebSocketExtensions.Key,c.option.PermessageDeflate.genRequestHeader())}" {
+				okClient = true
+			}
+			return true
+		})
+		f.Bool["extensionHeadersFromThisHandshake"] = i1 >= 0 && i2 > i1 && okClient
+	}
 	gj := p.fn("workerQueue.getJob")
 	var gjs []string
 	for _, st := range gj.Body.List {
